@@ -22,11 +22,13 @@ def main(path):
     if kind == 'failing-input':
         o = d['observed']
         cases = [c for c in corpus.quick_corpus(seed) if c[0] == o['case']]
-        if not cases and o.get('scope') != 'crate-option':
+        if not cases and o.get('scope') not in ('crate-option', 'extras'):
             print('case %s is not in the corpus for seed %d' % (o['case'], seed))
             return 2
         if o.get('scope') == 'crate-option':
             st, pr = tieb.run_crateopt(o['cfg'])
+        elif o.get('scope') == 'extras':
+            st, pr = tieb.run_extras(o['cfg'])
         elif o.get('scope') == 'no_std':
             st, pr = tieb.run_nostd(o['cfg'], cases, seed, None, (o['case'],))
         else:
